@@ -125,6 +125,10 @@ def generate(rng, idx, tier, variant):
             # dirty data arriving between two solves (possibly in a period that is already solved)
             nm_ = rng.choice(spec['names'] if spec['kind'] == 'parser' else (spec['endo'] + spec['exo']))
             ops.append({'op': 'poke', 'name': nm_, 'pos': rng.randrange(n), 'v': rng.choice(['nan', 'inf', '-inf', 0.0, 1.0])})
+        if n and rng.random() < 0.05 and not dup and not npdup:  # (a repeated label at span[lags] would name two periods)
+            # the instances' own lag / lead lengths raised after construction: solve()'s default range and the loop over
+            # the periods the instance can be solved for must still be the same thing
+            ops.append({'op': 'widen_margins', 'dl': rng.choice([0, 1, 1, 2]), 'dd': rng.choice([0, 1, 1, 2])})
         if n and rng.random() < 0.3:
             # history before the solve: every party is replaced by a reindexed version or by a copy of itself
             if rng.random() < 0.7 and not dup and not npdup:
@@ -248,6 +252,17 @@ def execute(schedule, ctx):
             ctx.fault('preexisting-nonfinite' if isinstance(op['v'], str) else 'data-corruption')
             ctx.log(step, 'poke')
             ctx.outcome('poke', 'ok')
+            continue
+        if op['op'] == 'widen_margins':
+            nl_, nd_ = lags + op['dl'], leads + op['dd']
+            if (op['dl'] or op['dd']) and nl_ + nd_ + 1 <= n:
+                for m in (A, B, C, R):
+                    m.lags, m.leads = nl_, nd_
+                lags, leads = nl_, nd_
+                spec['lags'], spec['leads'] = nl_, nd_
+                ctx.probe('history:instance-lags-leads-raised')
+            ctx.log(step, 'widen_margins', lags, leads)
+            ctx.outcome('widen_margins', 'ok')
             continue
         if op['op'] in ('reindex', 'copy'):
             import copy as _copy
